@@ -23,6 +23,7 @@
     outcome AND the state the objects are left in.
 
     Limits are modelled as non-negative ([N]); lengths and sizes are [N].
+    A limit of 0 is a limit: no loop iteration / no local variable with a size.
     The per-value size [sys.getsizeof(v)] is a parameter of [Assign].
 
     Model file: definitions only. Proofs are in Proofs/Limits_proofs.v. *)
@@ -35,14 +36,10 @@ Record cfg := {
   ns_limit : option N       (* Environment.local_namespace_limit (None by default) *)
 }.
 
-(** [if self.env.loop_iteration_limit and ...] / [if not self.env.local_namespace_limit]:
-    Python truthiness — [None] and [0] both mean "no limit". *)
-Definition active (l : option N) : option N :=
-  match l with
-  | Some 0 => None
-  | Some l => Some l
-  | None => None
-  end.
+(** [if self.env.loop_iteration_limit is not None and ...] /
+    [if self.env.local_namespace_limit is None]: only [None] switches a limit
+    off (proposed fix 0006; before it [0] did too, by Python truthiness). *)
+Definition active (l : option N) : option N := l.
 
 (** One RenderContext. [loops] holds the [length] of the ForLoop objects on
     [self.loops], innermost first (Python appends at the end; the only reader
@@ -291,7 +288,8 @@ Definition product (l : list N) : N := fold_right N.mul 1 l.
 
 (** Product of the lengths of all loops (of any kind, in any enclosing
     template) that are running after [ops]. *)
-Definition nest_product (ops : list op) : N := product (loop_lengths (spec_open ops [])).
+Definition enclosing_loops (ops : list op) : list N := loop_lengths (spec_open ops []).
+Definition nest_product (ops : list op) : N := product (enclosing_loops ops).
 
 (** Operations whose loops the implementation counts: every copy carries the
     loop count (all call sites pass carry_loop_iterations=True), and no parent
